@@ -16,6 +16,7 @@ import Cosi.Driver.Selector
 import Cosi.Driver.Alias
 import Cosi.Driver.Access
 import Cosi.Driver.Persist
+import Cosi.Driver.Cache
 
 open Cosi
 
@@ -38,7 +39,9 @@ def engines : List (String × Engine) := [
   ("ctrl", ⟨Driver.Ctrl.St, Driver.Ctrl.init, Driver.Ctrl.stepLine⟩),
   ("alias", ⟨Driver.Alias.St, Driver.Alias.init, Driver.Alias.stepLine⟩),
   ("access", ⟨Driver.Access.St, Driver.Access.init, Driver.Access.stepLine⟩),
-  ("persist", ⟨Driver.Persist.St, Driver.Persist.init, Driver.Persist.stepLine⟩)
+  ("persist", ⟨Driver.Persist.St, Driver.Persist.init, Driver.Persist.stepLine⟩),
+  ("cache", ⟨Driver.Cache.St, Driver.Cache.init, Driver.Cache.stepCache⟩),
+  ("cacherun", ⟨Driver.Cache.RSt, Driver.Cache.rinit, Driver.Cache.stepRun⟩)
 ]
 
 partial def loop (e : Engine) (spec : Bool) (inp : IO.FS.Stream) (out : IO.FS.Stream) (st : e.σ) : IO Unit := do
